@@ -1,13 +1,19 @@
 //! okane-verif-replay: runs witness families / replay files against the real code.
 //! usage: okane-verif-replay <family> [args...]   -> prints one JSON object per line; last line is a summary.
 mod c04;
+mod c05;
 mod c06;
 mod c07;
 mod c08;
+mod c09;
+mod c10;
+mod c11;
 mod c12;
 mod c13;
+mod c15;
 mod c16;
 mod c17;
+mod c18;
 mod c19;
 mod c20;
 mod ledger;
@@ -22,13 +28,19 @@ fn main() {
     std::panic::set_hook(Box::new(|_| {}));
     let rc = match args[1].as_str() {
         "c04" => c04::run(&args[2..]),
+        "c05" => c05::run(&args[2..]),
         "c06" => c06::run(&args[2..]),
         "c07" => c07::run(&args[2..]),
         "c08" => c08::run(&args[2..]),
+        "c09" => c09::run(&args[2..]),
+        "c10" => c10::run(&args[2..]),
+        "c11" => c11::run(&args[2..]),
         "c12" => c12::run(&args[2..]),
         "c13" => c13::run(&args[2..]),
+        "c15" => c15::run(&args[2..]),
         "c16" => c16::run(&args[2..]),
         "c17" => c17::run(&args[2..]),
+        "c18" => c18::run(&args[2..]),
         "c19" => c19::run(&args[2..]),
         "c20" => c20::run(&args[2..]),
         "c01" | "c02" | "c03" | "ledger" => ledger::run(&args[2..]),
